@@ -93,6 +93,10 @@ def _neighbours(rec, sels, cbc, tag):
         else:
             d = 1 + sel % 32 if sel & 64 else 16 * (1 + sel % 3)
             out.append(("extend", _resize(rec, n + d, tag)))
+            # the same with the header left alone: the caller hands over more (or fewer) bytes than the header announces
+            out.append(("extend-raw", rec + _bytes(tag, d)))
+            if n - d >= 0:
+                out.append(("truncate-raw", rec[:len(rec) - d]))
     return out
 
 
@@ -226,6 +230,29 @@ def tls13(case, ctx):
         r, t, p = _t13_unprotect(l, key, iv, seq, ed[5:])
         ctx.case(nontrivial=True, classes=["t13-edit:" + lab], ident=["ed", lab] + ident + [hashlib.sha1(ed).hexdigest()[:12]])
         ctx.check(r != 1, "tls13_gcm_decrypt accepts a record after '%s' (payload len %d, ret=%s)" % (lab, n, r), "t13/accepts/" + lab)
+    # the record-level pair tls13_record_encrypt / tls13_record_decrypt (whole records with header, explicit input length)
+    rec_in = bytes([rtype]) + b"\x03\x03" + n.to_bytes(2, "big") + payload
+    # both functions are exported by the library but not declared in <gmssl/tls.h>
+    VP, SZ = ctypes.c_void_p, ctypes.c_size_t
+    rec_enc = l.manual("tls13_record_encrypt", ctypes.c_int, [VP, VP, VP, VP, SZ, SZ, VP, ctypes.POINTER(SZ)])
+    rec_dec = l.manual("tls13_record_decrypt", ctypes.c_int, [VP, VP, VP, VP, SZ, VP, ctypes.POINTER(SZ)])
+    eo = Buf(5 + cap, fill=0); el = ctypes.c_size_t(0)
+    r = rec_enc(key, Buf.of(iv), Buf.of(seq), Buf.of(rec_in), len(rec_in), pad, eo, ctypes.byref(el))
+    ctx.check(r == 1 and eo.raw(el.value) == rec, "tls13_record_encrypt(len=%d, pad=%d) ret=%d differs from header + tls13_gcm_encrypt output" % (n, pad, r), "t13/record/protect")
+
+    def rec_unprotect(ed):
+        o = Buf(max(len(ed), 5), fill=0xA5); olen = ctypes.c_size_t(0)
+        rr = rec_dec(key, Buf.of(iv), Buf.of(seq), Buf.of(ed), len(ed), o, ctypes.byref(olen))
+        return rr, (o.raw(min(olen.value, len(ed))) if rr == 1 else None), olen.value
+    r, got, glen = rec_unprotect(rec)
+    ctx.check(r == 1 and got == rec_in, "tls13_record_decrypt(tls13_record_encrypt(x)) != x (len=%d pad=%d ret=%s)" % (n, pad, r), "t13/record/roundtrip")
+    for lab, ed in _neighbours(rec, case["edits"], False, "y%d" % seed):
+        if ed == rec or len(ed) < 5:
+            continue
+        r, got, glen = rec_unprotect(ed)
+        ctx.case(nontrivial=True, classes=["t13-record-edit:" + lab], ident=["red", lab] + ident + [hashlib.sha1(ed).hexdigest()[:12]])
+        ctx.check(r != 1, "tls13_record_decrypt accepts a record after '%s' (payload len %d, %d bytes handed over, header announces %d)" %
+                  (lab, n, len(ed), int.from_bytes(ed[3:5], "big")), "t13/record/accepts/" + lab)
     for s2 in {(case["seq"] + 1) % (1 << 64), (case["seq"] - 1) % (1 << 64), 0, case["edits"][0] | 1} - {case["seq"]}:
         r, t, p = _t13_unprotect(l, key, iv, s2.to_bytes(8, "big"), body)
         ctx.case(nontrivial=True, classes=["t13-edit:seq"], ident=["seq"] + ident + [s2])
